@@ -10,6 +10,7 @@ def run(cmd, cwd=None):
     r = subprocess.run(cmd, cwd=cwd, capture_output=True, text=True, env=ENV)
     return r.returncode, r.stdout + r.stderr
 wt, name, why = sys.argv[1:4]
+run(["git", "add", "-N", "."], cwd=wt)  # new files belong to the patch
 rc, diff = run(["git", "diff", "HEAD"], cwd=wt)
 if not diff.strip():
     print("no change"); sys.exit(1)
@@ -25,18 +26,24 @@ try:
     if rc: print("does not build", o[-500:]); sys.exit(1)
     rc, o = run(["go", "test", "-vet=off", "-count=1", "./..."], cwd=dst)
     print("suite:", "green" if rc == 0 else "FAILS " + o[-300:])
-    rc, o = run([os.path.join(VERIF, "bin", "fsverif"), "-property", "all", "-child", "-config", "linux/amd64", "-repo", dst])
-    if rc: print("checker failed", o[-500:]); sys.exit(1)
-    reps = json.loads(o[o.index("{"):])
+    import re
+    configs = ["linux/amd64"]
+    if re.search(r"^\+\+\+ b/\S*_(windows|unix|linux|darwin|freebsd|nolinux|otherbsd|nowindows)\.go", diff, re.M):
+        configs = ["linux/amd64", "linux/386", "darwin/amd64", "freebsd/amd64", "openbsd/amd64", "windows/amd64"]
     known = json.load(open(os.path.join(VERIF, "known_findings.json")))["findings"]
     n = 0
-    for pid, rep in sorted(reps.items()):
-        for ob in rep["Obs"]:
-            if ob["verdict"] in ("violation", "undecided"):
-                if any(k["status"] == "open" and k["property"] == pid and k["rule"] == ob["rule"] and k["construct"] == ob["construct"] for k in known):
-                    continue
-                n += 1
-                print(f"ALARM {pid} {ob['rule']} {ob['construct']} at {ob['pos']}: {ob['why'][:260]}")
+    for cfg in configs:
+        rc, o = run([os.path.join(VERIF, "bin", "fsverif"), "-property", "all", "-child", "-config", cfg, "-repo", dst])
+        if rc or "{" not in o:
+            print(f"[{cfg}] checker failed (a patch that breaks another platform's build is not a valid benign patch)", o[-500:]); n += 1; continue
+        reps = json.loads(o[o.index("{"):])
+        for pid, rep in sorted(reps.items()):
+            for ob in rep["Obs"]:
+                if ob["verdict"] in ("violation", "undecided"):
+                    if any(k["status"] == "open" and k["property"] == pid and k["rule"] == ob["rule"] and k["construct"] == ob["construct"] for k in known):
+                        continue
+                    n += 1
+                    print(f"ALARM [{cfg}] {pid} {ob['rule']} {ob['construct']} at {ob['pos']}: {ob['why'][:260]}")
     print("alarms:", n)
 finally:
     shutil.rmtree(tmp, ignore_errors=True)
